@@ -34,4 +34,11 @@ def streams(ctx):
     s2 = make_stream("srv", cases, c04_pred,
                      "%d generated fault-free scripts (W in 1..4); dispatch log compared and checked for round-robin / no dispatch to a full worker" % n,
                      lambda c, m: "D" in m)
-    return [s1, s2, bld_stream(ctx, ("C04", "C02"), ["", "c", "k", "ck", "k", "b", "cb"], 88, 1500, ws=(2, 3, 4), ls=(2, 3, 2))]
+    # the same with as many workers as there are availability bits: the start-up state (`set_available_all`) and the rotation cross
+    # the 128-bit word boundaries of the bitset
+    nb = 24 if ctx.tier == "quick" else 400
+    big = gen_scripts(ctx, nb, ["d", "de", "e"], ws=(127, 128, 129, 130, 192, 255, 256, 257, 300, 384, 511, 512), ls=(1, 2), lens=(10, 20, 40))
+    s2b = make_stream("srvbig", big, c04_pred,
+                      "%d generated fault-free scripts with 127..512 workers (all availability words in use from start-up)" % nb,
+                      lambda c, m: "D" in m)
+    return [s1, s2, s2b, bld_stream(ctx, ("C04", "C02"), ["", "c", "k", "ck", "k", "b", "cb"], 88, 1500, ws=(2, 3, 4), ls=(2, 3, 2))]
